@@ -22,6 +22,10 @@ CHECKS = {
    "implementation-shaped TLA+ model of the Processor (token, reset, stop, loop pcs) checked exhaustively by TLC for NoStranded/on-time/once + liveness; real Processor driven by a gated scheduler through its decision points (all interleavings sampled, staged windows forced), observable traces judged by TLC against the ProcContract monitor with a silent Pop step",
    "TLC visits every interleaving of 3 clients x loop x clock of the model (0.75M states quick, more thorough, plus a liveness config); the real code is executed under ~700 (quick) to tens of thousands (thorough) controlled schedules with every loop decision point a gate, and each observable trace must be explainable by the contract (exactly once, not early, order, none stranded at quiescence, nothing after Close)",
    "trusted: TLC; quiescence detection by goroutine wait states (a run that cannot be driven is inconclusive, never a violation); fake clock = k8s FakeClock; schedules are sampled, not exhaustive, on the real code", "DESIGN.md#c06"),
+ "C11": ("model_checking",
+   "implementation-shaped TLA+ model of the Broadcaster (lock held across blocking sends, closeCh, closeEventCh, forwarders) checked exhaustively by TLC for common order, quiet-after-Close and liveness of Close/Broadcast; real Broadcaster driven by a gated scheduler (decision points + slow readers), observable traces judged by TLC against the BcastContract monitor",
+   "TLC explores all interleavings of 2 subscribers (prompt/stalled) x 2 broadcasters x Close for buffer capacity 1-2 incl. liveness; the real code runs ~700 (quick) to tens of thousands (thorough) controlled schedules of staged and random programs (stalled readers with >10 outstanding, churn, Close at any point), each trace checked for exactly-once to stayers, at-most-once, one common order (acyclicity of the union of per-subscriber orders and call order), nothing after Close, no stuck call",
+   "trusted: TLC; quiescence detection by goroutine wait states (undrivable runs are inconclusive); a receive counts as 'after Close' only if the reader began waiting after Close returned (sound, slightly weak); schedules sampled", "DESIGN.md#c11"),
 }
 
 def hook_commits():
